@@ -193,7 +193,7 @@ Lemma parse_misc_pos s c : wf s -> Inv (s_pos s) c -> good (ppost 0 s) (parse_mi
 Proof. intros. apply parse_misc_loop_pos; auto using fuel_enough. Qed.
 Hint Resolve parse_misc_pos : pgood.
 
-Lemma parse_attribute_pos s : wf s -> good (adv 0 s) (parse_attribute text s).
+Lemma parse_attribute_pos s : wf s -> good (fun p => adv 0 s (snd p)) (parse_attribute text s).
 Proof. apply parse_attribute_good. Qed.
 Lemma parse_declaration_pos s : wf s -> good (adv 0 s) (parse_declaration text s).
 Proof. apply parse_declaration_good. Qed.
